@@ -318,11 +318,19 @@ def abs7(ctx, pid):
             else:
                 row = "?"
             rows.setdefault(row, set()).add(src)
+        if "?" in rows:
+            alt = _abs7_rows_terms(ctx, f, key)
+            if alt is not None:
+                rows = alt
         want = {"in-live": "cache", "in-deleted": "wrapped", "out": "wrapped"}
         for row, w in want.items():
             got = rows.get(row)
             cst = "table:ScratchDB.%s:%s" % (name, row)
-            if got is None:
+            if got is None and "?" in rows and "in-?" not in rows:
+                # some path could not be put in a row (a combined boolean expression, `cache.get(key, DELETED)`):
+                # the missing row may be that path
+                ctx.unsure(cst, f.loc(), "no interpreted path answers the case key %s (there are paths with uninterpreted cache conditions)" % row)
+            elif got is None:
                 ctx.bad(cst, f.loc(), "no path answers the case key %s" % row)
             elif got == {w}:
                 ctx.ok(cst, f.loc(), "answer comes from the %s" % w)
@@ -343,6 +351,77 @@ def abs7(ctx, pid):
         ctx.ok("copy-fresh:ScratchDB.copy", g.loc(), "copy() builds a new mapping (merge + valfilter)", nontrivial=True).rule = "AL3"
     else:
         ctx.bad("copy-fresh:ScratchDB.copy", g.loc(), "copy() may return an object shared with the ScratchDB", rule="AL3")
+
+
+def _abs7_rows_terms(ctx, f, key):
+    """The decision table of a ScratchDB reader from the terms of its paths (boolean returns split by short-circuit
+    evaluation): understands `key in cache`, `cache[key] is [not] DELETED`, a guarded `cache[key]` read, and
+    `cache.get(key, DELETED) is [not] DELETED` (DELETED stands for "not in the cache or deleted there").
+    -> {row: {source}} or None when a path cannot be read."""
+    from .. import pq as _pq
+    from ..pq import rel_norm, truth_norm
+    from ..sym import C
+    from ..model import Sentinel
+    K = ("p", key)
+    CACHE, WRAPPED = ("attr", ("self",), "cache"), ("attr", ("self",), "wrapped_db")
+
+    def is_del(t):
+        return t[0] == "c" and isinstance(t[1], Sentinel)
+
+    def is_getd(t):
+        return t[0] == "call" and t[1] == "m:get" and len(t[2]) == 3 and t[2][0] == CACHE and t[2][1] == K and is_del(t[2][2])
+    rows = {}
+    for p, st in _pq.states(ctx, f, fork_returns=True):
+        if p.exit[0] != "return":
+            continue
+        incache = live = None
+        rowset = None
+        wrapped_in = None
+        for t, pol, _ in st.log:
+            r = rel_norm(t, pol)
+            if r is None:
+                continue
+            op, a, b = r
+            if op in ("in", "notin") and a == K and b == CACHE:
+                incache = op == "in"
+            elif op in ("in", "notin") and a == K and b == WRAPPED:
+                wrapped_in = op == "in"
+            elif op in ("is", "isnot") and is_del(b) and a == ("sub", CACHE, K):
+                live = op == "isnot"
+                incache = True if incache is None else incache
+            elif op in ("is", "isnot") and is_del(b) and is_getd(a):
+                rowset = {"in-deleted", "out"} if op == "is" else {"in-live"}
+            elif op in ("is", "isnot") and is_del(b) and a[0] == "call" and a[1] == "m:get" and len(a[2]) == 2 and a[2][0] == CACHE and a[2][1] == K:
+                # cache.get(key) without a default is None for a key the cache does not hold - and None is not DELETED
+                rowset = {"in-deleted"} if op == "is" else {"in-live", "out"}
+        if rowset is None:
+            if incache is True and live is True:
+                rowset = {"in-live"}
+            elif incache is True and live is False:
+                rowset = {"in-deleted"}
+            elif incache is False:
+                rowset = {"out"}
+            elif incache is True:
+                rowset = {"in-?"}
+            else:
+                return None
+        rv = _pq.ret_term(st)
+        if rv == ("sub", CACHE, K) or is_getd(rv):
+            src = "cache"
+        elif rv == ("sub", WRAPPED, K):
+            src = "wrapped"
+        elif rv[0] == "c" and isinstance(rv[1], bool):
+            if wrapped_in is not None and wrapped_in == rv[1]:
+                src = "wrapped"
+            elif rv[1] is True:
+                src = "cache"
+            else:
+                src = "const:False"
+        else:
+            src = "other"
+        for row in rowset:
+            rows.setdefault(row, set()).add(src)
+    return rows
 
 
 def _answer_source(ctx, f, rv, key):
@@ -841,6 +920,21 @@ def copy_shape(ctx, pid):
     for r in rets:
         if r[0] == "call" and r[1] == "ext:eth_utils.toolz.valfilter" and len(r[2]) == 2 and r[2][1] == merged:
             ok = True
+    # third spelling: {k: v for k, v in merge(wrapped_db, cache).items() if v is not DELETED}
+    if len(rets) == 1 and next(iter(rets))[0] == "dictcomp":
+        r = next(iter(rets))
+        from ..sym import C
+        items = ("call", "m:items", (merged,), ())
+        el = ("iter", items, "c")
+        kk, vv = ("sub", el, C(0)), ("sub", el, C(1))
+        good = r[1] == kk and r[2] == vv and r[3] == (items,) and len(r[4]) == 1 and r[4][0][0] == "cmp" and r[4][0][1] == "isnot" and r[4][0][2] == vv \
+            and r[4][0][3][0] == "c" and type(r[4][0][3][1]).__name__ == "Sentinel"
+        c = "overlay:ScratchDB.copy"
+        if good:
+            ctx.ok(c, f.loc(), "{k: v for k, v in merge(wrapped_db, cache).items() if v is not DELETED}: the buffer overrides the wrapped db, deletions are dropped")
+        else:
+            ctx.bad(c, f.loc(), "copy() returns `%s`; expected the items of merge(wrapped_db, cache) whose value is not DELETED" % tstr(r)[:90])
+        return
     lam = [n for n in ast.walk(f.node) if isinstance(n, ast.Lambda)]
     lam_ok = len(lam) == 1 and isinstance(lam[0].body, ast.Compare) and isinstance(lam[0].body.ops[0], ast.IsNot) and _is_deleted_marker(ctx, lam[0].body.comparators[0], f) \
         and isinstance(lam[0].body.left, ast.Name) and lam[0].body.left.id == lam[0].args.args[0].arg
